@@ -23,7 +23,7 @@ type Gen struct {
 
 func NewGen(w *World, r *hx.Rng, paths []string) *Gen {
 	return &Gen{W: w, R: r, NextKey: 1, NextMt: 1, Tag: 1, Paths: paths,
-		ManifestPct: 20, RewrapPct: 12, OverlapPct: 25, MalformedPct: 0}
+		ManifestPct: 20, RewrapPct: 25, OverlapPct: 25, MalformedPct: 0}
 }
 
 func (g *Gen) key() uint64 { k := g.NextKey; g.NextKey++; return k }
@@ -304,4 +304,16 @@ func (g *Gen) op1(mix Mix) Op {
 	default:
 		return Op{Kind: OpUnlink, Path: g.pickPath(92, false)}
 	}
+}
+
+// ---------- exported helpers for deterministic (enumerated) histories ----------
+func (g *Gen) ViewAt(p string) (Ent, bool) { return g.viewAt(p) }
+func (g *Gen) Key() uint64                 { return g.key() }
+func (g *Gen) Mt() int64                   { return g.mt() }
+func (g *Gen) Wrap(data []Chunk) Chunk     { return g.wrap(data) }
+func (g *Gen) NextTag() int64              { t := g.Tag; g.Tag++; return t }
+
+// FreshAfter: a fresh 10-byte data chunk placed after the given list
+func (g *Gen) FreshAfter(cs []Chunk) Chunk {
+	return Chunk{Key: g.key(), Off: total(cs), Size: 10, Mtime: g.mt()}
 }
